@@ -1984,3 +1984,24 @@ VARIANTS += [
       edits=[(V, _REV_APPEND, '\t\t\tresults := append(outcome.VerificationResults, revocationResult)\n\t\t\toutcome.VerificationResults = results\n\t\t\tif isCriticalFailure(revocationResult) {')],
       why='append through a local'),
 ]
+
+# ---- the level that judges is the selected statement's (checker/level_origin.go; seed C02-7) ----
+_LV = 'flagged(level/from-selected-statement)'
+_GETLV = '\tverificationLevel, _ := trustPolicy.SignatureVerification.GetVerificationLevel()\n'
+_NEWFC = 'func NewFromConfig() (notation.Verifier, error) {'
+VARIANTS += [
+ dict(name='level-of-first-statement', expect=_LV,
+      edits=[(V, _GETLV + '\t// verificationLevel is skip', '\tverificationLevel, _ := v.ociTrustPolicyDoc.TrustPolicies[0].SignatureVerification.GetVerificationLevel()\n\t// verificationLevel is skip')],
+      why='SkipVerify judges by the first statement of the document'),
+ dict(name='level-constant-in-outcome', expect=_LV,
+      edits=[(V, '\t\tVerificationLevel: verificationLevel,\n\t}\n\t// verificationLevel is skip\n\tif reflect.DeepEqual(verificationLevel, trustpolicy.LevelSkip) {\n\t\tlogger.Debug("Skipping signature verification")\n\t\treturn outcome, nil\n\t}\n\terr = v.processSignature(ctx, signature, opts.SignatureMediaType, trustPolicy.Name',
+                 '\t\tVerificationLevel: trustpolicy.LevelPermissive,\n\t}\n\t// verificationLevel is skip\n\tif reflect.DeepEqual(verificationLevel, trustpolicy.LevelSkip) {\n\t\tlogger.Debug("Skipping signature verification")\n\t\treturn outcome, nil\n\t}\n\terr = v.processSignature(ctx, signature, opts.SignatureMediaType, trustPolicy.Name')],
+      why='a fixed level is recorded'),
+ dict(name='benign-level-helper-takes-signature-verification', expect='silent',
+      edits=[(V, _GETLV, '\tverificationLevel := levelOf(&trustPolicy.SignatureVerification)\n'),
+             (V, _NEWFC, 'func levelOf(sv *trustpolicy.SignatureVerification) *trustpolicy.VerificationLevel {\n\tlevel, _ := sv.GetVerificationLevel()\n\treturn level\n}\n\n' + _NEWFC)],
+      why='helper handed the SignatureVerification of the selected statement'),
+ dict(name='benign-level-local-copy-of-signature-verification', expect='silent',
+      edits=[(V, _GETLV + '\t// verificationLevel is skip', '\tsv := trustPolicy.SignatureVerification\n\tverificationLevel, _ := sv.GetVerificationLevel()\n\t// verificationLevel is skip')],
+      why='local copy'),
+]
